@@ -242,7 +242,8 @@ LeafNormPowW(w, spc, x) ==
   IF IsCustom(spc)
     THEN CASE spc.w.tag = "inner:iw"  -> LeafInner(w, x, x)[1]
            [] spc.w.tag = "norm:l1x2" -> QMul(QI(2), QSumSeq([i \in 1..Len(x) |-> CAbsQ(x[i])]))
-  ELSE IF spc.p = PInf THEN QMaxSeq([i \in 1..Len(x) |-> QMul(w[i], CAbsQ(x[i]))])
+  ELSE IF Len(x) = 0 THEN QZero          \* the only element of a zero-size space is 0, and ||0|| = 0
+       ELSE IF spc.p = PInf THEN QMaxSeq([i \in 1..Len(x) |-> QMul(w[i], CAbsQ(x[i]))])
        ELSE QSumSeq([i \in 1..Len(x) |-> QMul(w[i], AbsPow(x[i], spc.p))])
 
 RECURSIVE NormOkW(_, _, _), NormPowW(_, _, _)
